@@ -206,3 +206,92 @@ def check_c07(ctx):
 
 def replay_c07(ctx, case):
     return _replay(ctx, case, "C07", "Trace_Doc_C07.cfg")
+
+
+# ------------------------------------------------------------------------------------------ C02
+EXT_BITS = {"MODIFIERS": 1 << 1, "ALIAS": 1 << 3, "ADVANCED_UNITS": 1 << 5, "MODES": 1 << 6, "INLINE": 1 << 7, "RANGE": 1 << 9,
+            "TIMER_REQ": 1 << 10, "INTERMEDIATE": 1 << 11}
+REINTERPRETED = {"MODIFIERS", "ALIAS", "ADVANCED_UNITS", "MODES", "INLINE", "RANGE", "TIMER_REQ", "INTERMEDIATE"}
+
+
+def check_c02(ctx):
+    core.build_harness()
+    quick = ctx.tier == "quick"
+    nsim = 600 if quick else 6000
+    # (1) core-syntax documents: written with no extension syntax at all, kept when they use none of the
+    # reinterpreted constructs (the generator records what each document uses)
+    docs = gen_docs(ctx, "MC_Doc_sim_canonb.cfg", simulate=nsim)
+    core_docs = []
+    for d in docs:
+        uses = set(d.get("uses", []))
+        if not d["pred"]["wellformed"] or uses & REINTERPRETED:
+            continue
+        d = dict(d)
+        d["lacking"] = 0
+        # an empty converter rejects every timer unit under ADVANCED_UNITS (documented): timers only with bundled units
+        core_docs.append(dict(d, conv="bundled"))
+        if "TIMER" not in uses:
+            core_docs.append(dict(d, conv="empty", pred=None))
+    core_docs = core_docs[: (400 if quick else 8000)]
+    for d in core_docs:
+        if d.get("pred") is None:
+            d.pop("pred")
+    # (2) converse: documents that use exactly one extension's syntax, read by parsers that lack it
+    conv_docs = []
+    for name, ext in [("Alias", "ALIAS"), ("Range", "RANGE"), ("Advanced", "ADVANCED_UNITS"), ("Modes", "MODES"), ("Inline", "INLINE")]:
+        ds = gen_docs(ctx, f"MC_Doc_conv_{name}.cfg", simulate=nsim // 2)
+        keep = [dict(d, lacking=EXT_BITS[ext], conv="bundled") for d in ds
+                if d["pred"]["wellformed"] and ext in d.get("uses", []) and not (set(d.get("uses", [])) - {ext, "TIMER"} & REINTERPRETED)]
+        conv_docs += keep[: (40 if quick else 400)]
+    # intermediate-reference syntax read by parsers that have modifiers but not intermediate preparations
+    ds = gen_docs(ctx, "MC_Doc_conv_Intermediate.cfg", simulate=nsim // 2)
+    keep = [dict(d, lacking=EXT_BITS["INTERMEDIATE"], requiring=EXT_BITS["MODIFIERS"], conv="bundled") for d in ds
+            if "INTERMEDIATE" in d.get("uses", []) and not (set(d.get("uses", [])) - {"INTERMEDIATE", "MODIFIERS", "TIMER"} & REINTERPRETED)
+            and not d["pred"]["failed"]]
+    conv_docs += keep[: (40 if quick else 400)]
+    # timers without a duration are core syntax that TIMER_REQ reinterprets
+    for d in docs:
+        uses = set(d.get("uses", []))
+        if d["pred"]["wellformed"] and "TIMER_REQ" in uses and not (uses - {"TIMER_REQ", "TIMER"}) & REINTERPRETED:
+            conv_docs.append(dict(d, lacking=EXT_BITS["TIMER_REQ"], conv="bundled"))
+    pin = os.path.join(ctx.work, "sub_in.ndjson")
+    pout = os.path.join(ctx.work, "sub_obs.ndjson")
+    psum = os.path.join(ctx.work, "sub_sum.ndjson")
+    core.write_ndjson(pin, core_docs + conv_docs)
+    core.run_harness(ctx, ["subsets", "--in", pin, "--out", pout, "--summary", psum])
+    obs = core.read_ndjson(pout)
+    judge_docs(ctx, "C02", "Trace_Doc_C02.cfg", pout, obs)
+    sums = core.read_ndjson(psum)
+    n, bad, _ = core.run_judge(ctx, "Trace_Subsets", psum)
+    for line, names in bad:
+        x = sums[line - 1]
+        distinct = sorted(set(x["imgs"]))
+        first_other = next(i for i, h in enumerate(x["imgs"]) if h != x["imgs"][0]) if len(distinct) > 1 else 0
+        for c in names:
+            ctx.violation(c, f"C02 clause {c} fails on {text_of(x)[:160]!r}: {len(distinct)} distinct images over {len(x['imgs'])} "
+                             f"subsets lacking bits {x['lacking']} (e.g. ext bits {x['exts'][0]} vs {x['exts'][first_other]})",
+                          dict(kind="subsets", clause=c, text=text_of(x), conv=x["conv"], lacking=x["lacking"],
+                               differing=[x["exts"][0], x["exts"][first_other]]))
+    doc_evidence(ctx, obs, "C02: core-syntax documents (none of the reinterpreted constructs, as recorded by the generator) are "
+                           "parsed under all 192 closed subsets of the eight flags: equal to the predicted recipe, error free, "
+                           "and one serde_json image per document; documents using exactly one extension's syntax are parsed "
+                           "under every subset lacking it and must equal the core reading CookDoc predicts with that extension off.")
+    ctx.extra["core_documents"] = len(core_docs)
+    ctx.extra["converse_documents"] = len(conv_docs)
+    ctx.extra["parses"] = len(obs)
+
+
+def replay_c02(ctx, case):
+    core.build_harness()
+    c = case["case"]
+    if c.get("kind") == "subsets":
+        pin = os.path.join(ctx.work, "sub_in.ndjson")
+        pout = os.path.join(ctx.work, "sub_obs.ndjson")
+        psum = os.path.join(ctx.work, "sub_sum.ndjson")
+        core.write_ndjson(pin, [dict(text=c["text"], conv=c["conv"], lacking=c["lacking"])])
+        core.run_harness(ctx, ["subsets", "--in", pin, "--out", pout, "--summary", psum])
+        n, bad, _ = core.run_judge(ctx, "Trace_Subsets", psum)
+        for line, names in bad:
+            ctx.violation("replay", f"still fails: {names}", dict())
+        return ctx.finish()
+    return _replay(ctx, case, "C02", "Trace_Doc_C02.cfg")
